@@ -78,6 +78,14 @@ func rangeIndexSlice(v ssa.Value) (ssa.Value, bool) {
 }
 
 func (p *Program) frameOfSlice(s ssa.Value, fn *ssa.Function) idxFrame {
+	return p.frameOfSliceRec(s, fn, map[ssa.Value]bool{})
+}
+
+func (p *Program) frameOfSliceRec(s ssa.Value, fn *ssa.Function, seen map[ssa.Value]bool) idxFrame {
+	if s == nil || seen[s] {
+		return idxFrame{kind: "none"}
+	}
+	seen[s] = true
 	switch x := s.(type) {
 	case *ssa.Parameter:
 		return idxFrame{kind: "param", par: x}
@@ -85,13 +93,13 @@ func (p *Program) frameOfSlice(s ssa.Value, fn *ssa.Function) idxFrame {
 		if x.Low != nil && !isIntConst(x.Low, 0) {
 			return idxFrame{kind: "sub", why: "a sub-slice " + shortVal(x.X) + "[" + shortVal(x.Low) + ":…] at " + p.InstrPos(x), lo: x.Low}
 		}
-		return p.frameOfSlice(x.X, fn)
+		return p.frameOfSliceRec(x.X, fn, seen)
 	case *ssa.UnOp:
 		if al, ok := x.X.(*ssa.Alloc); ok {
 			var fs []idxFrame
 			for _, ref := range *al.Referrers() {
 				if st, ok := ref.(*ssa.Store); ok && st.Addr == al {
-					fs = append(fs, p.frameOfSlice(st.Val, fn))
+					fs = append(fs, p.frameOfSliceRec(st.Val, fn, seen))
 				}
 			}
 			return joinFrames(fs...)
@@ -99,7 +107,7 @@ func (p *Program) frameOfSlice(s ssa.Value, fn *ssa.Function) idxFrame {
 	case *ssa.Phi:
 		var fs []idxFrame
 		for _, e := range x.Edges {
-			fs = append(fs, p.frameOfSlice(e, fn))
+			fs = append(fs, p.frameOfSliceRec(e, fn, seen))
 		}
 		return joinFrames(fs...)
 	}
